@@ -254,8 +254,9 @@ func gmsg(w *World, kind string, a Args, auth string) (m sdk.Msg, handwritten bo
 			}
 		}
 		var us []fxgovtypes.UpdateStore
+		spaces := strings.Split(def("space", "migrate"), "|") // one space for all entries, or one per entry
 		for i, k := range keys {
-			u := fxgovtypes.UpdateStore{Space: def("space", "migrate"), Key: k}
+			u := fxgovtypes.UpdateStore{Space: spaces[min(i, len(spaces)-1)], Key: k}
 			if i < len(olds) {
 				u.OldValue = olds[i]
 			}
